@@ -16,7 +16,7 @@ EXPLANATION = (
     'and the same body; R15.c both APIs return a shell-reported error unmodified; R15.d decoders propagate every failure as an '
     'error value; R15.e the only headers written on the path are the shell\'s (a side-effecting set_body is undone before they '
     'are appended, and headers are snapshotted before the body is taken); R15.f decode_body produces a String only behind the success edge of '
-    'the charset-label lookup; R15.g body_json parses the raw body bytes (JSON is UTF-8 whatever the Content-Type says) and never goes through the charset decoder. Decoder conformance (encoding_rs, serde_json) is trusted. R15.a also lists std methods that panic on argument values (String::truncate, split_at, Vec::remove, ...).')
+    'the charset-label lookup; R15.g body_json parses the raw body bytes (JSON is UTF-8 whatever the Content-Type says) and never goes through the charset decoder. R15.i where a shell HttpResponse becomes a response object, set_body takes the `body` field of that response itself (moved, Into / From / from_bytes at most), never a reader with a declared length or a re-encoding. Decoder conformance (encoding_rs, serde_json) is trusted. R15.a also lists std methods that panic on argument values (String::truncate, split_at, Vec::remove, ...).')
 
 HT = 'http_types_red_badger_temporary_fork'
 SAFE_STATUS_T = HT + '::status_code::StatusCode'
@@ -78,6 +78,7 @@ def check(ctx, rep):
     rep.rule('R15.b', 'Response::new returns HttpError::Http exactly on the client/server-error edges and otherwise copies status, headers, body', floor=6)
     rep.rule('R15.c', 'a shell-reported HttpResult::Err reaches the app unmodified in both APIs', floor=2)
     rep.rule('R15.d', 'decoders turn every failure into an error value', floor=3)
+    rep.rule('R15.i', 'the body set on the response object is the shell response\'s body field itself, whole', floor=1)
     rep.rule('R15.e', 'only the shell\'s headers are written on the shell-input path', floor=2)
     cfgs = ['default'] + (['allfeat'] if ctx.has('allfeat') else [])
     for cfg in cfgs:
@@ -120,6 +121,7 @@ def check(ctx, rep):
         check_decoders(rep, http, cfg, cg)
         check_header_writes(rep, http, cfg)
         check_charset_consulted(rep, http, cfg)
+        check_body_whole(rep, http, cfg)
         check_json_from_bytes(rep, http, cfg)
         check_charset_from_mime(rep, http, cfg)
     controls(ctx, rep)
@@ -433,6 +435,32 @@ def check_charset_from_mime(rep, http, cfg):
         rep.expect('R15.h', ok, key, 'decode_body gets the charset parameter of the parsed media type',
                    '%s no longer takes the charset from Mime::param of the parsed Content-Type (param calls %d, hand scanning %s): quoted or '
                    'unusually placed charset parameters are mis-read' % (r.path, len(params), sorted(set(x for _, x in scans))), site=key + '@' + cfg)
+
+
+def check_body_whole(rep, http, cfg):
+    """R15.i: the body the app reads is the shell's bytes, all of them: where a shell response becomes a response object, the body that is
+    set is the `body` field of the HttpResponse itself, moved (Into / From / Body::from_bytes at most) — not a reader with a declared
+    length, a slice or a re-encoding of it"""
+    WHOLE = [('core::convert::Into::into', 0), ('core::convert::From::from', 0), (HT + '::body::Body::from_bytes', 0)]
+    n = 0
+    for f in http.built:
+        if f.j.get('exp') or '::testing' in f.npath:
+            continue
+        params = [i for i in range(1, f.argc + 1) if re.match(r'^crux_http::protocol::HttpResponse$', str(f.locals[i]))]
+        if not params:
+            continue
+        for bb, t in f.calls(HT + '::response::Response::set_body', HT + '::response::Response::replace_body', HT + '::response::Response::swap_body'):
+            n += 1
+            src = origins(f, t['args'][1], extra_identity=WHOLE)
+            whole = bool(src) and all(o.kind == 'arg' and o.n in params and o.suffix == ['.body'] for o in src)
+            key = '%s|body-whole' % http.host_root(f)
+            rep.expect('R15.i', whole, key, 'set_body takes the shell response\'s body field itself',
+                       '%s sets the response body from %s instead of the shell response\'s `body` bytes themselves: the app can see a truncated '
+                       'or altered body (e.g. a reader capped at the declared Content-Length)' % (
+                           f.where(bb), [(o.kind, last_seg(o.term.get('callee') or '') if o.kind == 'call' else o.suffix) for o in src]),
+                       site=key + '@' + cfg)
+    if n < 1:
+        rep.bad('R15.i', 'sites@' + cfg, 'the conversion of a shell HttpResponse into a response object (set_body) was not found')
 
 
 def check_charset_consulted(rep, http, cfg):
